@@ -37,6 +37,8 @@ pub enum SendOutcome {
 struct ScriptLocked {
     script: VecDeque<SendOutcome>,
     sent: Vec<Vec<u8>>,
+    /// datagrams longer than this get EMSGSIZE (a link with a smaller MTU than configured)
+    max_datagram: Option<usize>,
 }
 
 #[derive(Clone)]
@@ -48,7 +50,12 @@ pub struct ScriptTransport {
 impl ScriptTransport {
     fn send(&self, buf: &[u8]) -> Poll<std::io::Result<usize>> {
         let mut g = self.locked.lock();
-        match g.script.pop_front().unwrap_or(SendOutcome::Sent) {
+        let scripted = g.script.pop_front().unwrap_or(SendOutcome::Sent);
+        let outcome = match (scripted, g.max_datagram) {
+            (SendOutcome::Sent, Some(m)) if buf.len() > m => SendOutcome::EMsgSize,
+            (o, _) => o,
+        };
+        match outcome {
             SendOutcome::Sent => {
                 g.sent.push(buf.to_owned());
                 Poll::Ready(Ok(buf.len()))
@@ -256,6 +263,10 @@ impl VsockDriver {
         let mut g = self.transport.locked.lock();
         g.script.clear();
         g.script.extend(outcomes.iter().copied());
+    }
+
+    pub fn set_max_datagram(&self, max: Option<usize>) {
+        self.transport.locked.lock().max_datagram = max;
     }
 
     pub fn take_sent(&self) -> Vec<Vec<u8>> {
